@@ -95,7 +95,9 @@ func (p *Parser) ParseFile(filename string, varPool *VarPool) (*MetaData, []*Bui
 	}
 
 	for _, f := range pkg.Syntax {
-		if f == nil {
+		// Files written by kessoku itself are about to be regenerated; their names must not
+		// influence this run, otherwise the output depends on leftovers of previous runs.
+		if f == nil || isKessokuGenerated(f) {
 			continue
 		}
 
@@ -131,7 +133,7 @@ func (p *Parser) ParseFile(filename string, varPool *VarPool) (*MetaData, []*Bui
 	}
 
 	for _, f := range pkg.Syntax {
-		if f == nil {
+		if f == nil || isKessokuGenerated(f) {
 			continue
 		}
 
@@ -174,6 +176,21 @@ func (p *Parser) ParseFile(filename string, varPool *VarPool) (*MetaData, []*Bui
 	}
 
 	return metaData, builds, nil
+}
+
+// isKessokuGenerated reports whether f carries the header kessoku writes into *_band.go files.
+func isKessokuGenerated(f *ast.File) bool {
+	for _, group := range f.Comments {
+		if group.Pos() >= f.Package {
+			break
+		}
+		for _, c := range group.List {
+			if c.Text == generatedHeader {
+				return true
+			}
+		}
+	}
+	return false
 }
 
 // initializeSSA initializes SSA analysis for a file.
